@@ -33,12 +33,12 @@ def shards(tier, seed):
         out.append({"kind": "queries", "part": k, "n": 70 if tier == "quick" else 500})
     for k in range(2 if tier == "quick" else 8):
         out.append({"kind": "cache_api", "part": k, "n": 20 if tier == "quick" else 100})
-    for cfg in ("memory", "file", "global(memory)"):
+    for cfg in ("memory", "file", "global(memory)", "readonly(memory)"):
         for k in range(1 if tier == "quick" else 4):
             out.append({"kind": "store_api", "cfg": cfg, "part": k, "n": 20 if tier == "quick" else 80})
     out.append({"kind": "registration"})
     out.append({"kind": "misc", "n": 25 if tier == "quick" else 150})
-    for cfg in ("memory", "file"):
+    for cfg in ("memory", "file", "readonly(memory)"):
         out.append({"kind": "remote_store", "cfg": cfg, "n": 30 if tier == "quick" else 120})
     return out
 
@@ -170,7 +170,7 @@ def part_cache(cx):
     spec = cx.spec
     rnd = random.Random("%s/C20c/%s" % (spec["seed"], spec.get("part")))
     client = make_app().test_client()
-    KEYS = ["a", "a/b", "a/b-c", "x-~X~/y~E", "k.txt", "one/add-1", "lit-%C3%A9"]
+    KEYS = ["a", "a/b", "a/b-c", "x-~X~/y~E", "k.txt", "one/add-1", "lit-%C3%A9", "greet-a~.b", "greet-a%20b", "lit-é"]
 
     def mkstate(k, n):
         v = rnd.choice(["text %d" % n, n, {"n": n}, b"bytes%d" % n, [n, "l"]])
@@ -325,7 +325,7 @@ def store_view(s, prefix=""):
             out[k + "#b"] = "raises"
         try:
             m = s.get_metadata(k)
-            out[k + "#m"] = (m.get("x_user"), m.get("key"), (m.get("fileinfo") or {}).get("is_dir"))
+            out[k + "#m"] = (m.get("x_user"), m.get("key"), (m.get("fileinfo") or {}).get("is_dir"), m.get("title"))
         except Exception:
             out[k + "#m"] = "raises"
     try:
@@ -553,7 +553,10 @@ def part_remote_store(cx):
                     return run(remote), run(twin)
 
                 if kind == "store":
-                    ra, rb = both(lambda s: s.store(k, op[2].encode(), {"x_user": op[2]}))
+                    ra, rb = both(lambda s: s.store(k, op[2].encode(), {"x_user": op[2], "title": "T" + op[2]}))
+                elif kind == "store_nometa":
+                    # an overwrite that brings no metadata of its own: what was recorded for the previous data goes
+                    ra, rb = both(lambda s: s.store(k, op[2].encode(), {}))
                 elif kind == "store_metadata":
                     ra, rb = both(lambda s: s.store_metadata(k, {"x_user": op[2]}))
                 elif kind == "remove":
@@ -580,6 +583,11 @@ def part_remote_store(cx):
                     continue
                 if rb[0] == "ok" and ra != rb:
                     cx.viol("RemoteStore.%s differs from the store" % kind, "key %r: store %r, remote %r" % (k, rb, ra), w)
+                    return
+                if rb[0] == "raises" and ra[0] == "ok" and kind in ("store", "store_nometa", "store_metadata", "remove", "makedir",
+                                                                       "removedir", "removedir_recursive"):
+                    cx.count("remote.refused_by_the_store")
+                    cx.viol("RemoteStore.%s returns normally where the store refuses" % kind, "key %r: store %r, remote %r" % (k, rb, ra), w)
                     return
                 # the client's own view (no stale answers) ...
                 for kk in STORE_KEYS:
@@ -611,8 +619,10 @@ def part_remote_store(cx):
         for i in range(rnd.randint(4, 10)):
             k = rnd.choice(STORE_KEYS)
             r = rnd.random()
-            if r < 0.35:
+            if r < 0.3:
                 hist.append(["store", k, "v%d" % i])
+            elif r < 0.36:
+                hist.append(["store_nometa", k, "n%d" % i])
             elif r < 0.45:
                 hist.append(["store_metadata", k, "m%d" % i])
             elif r < 0.55:
